@@ -64,10 +64,13 @@ impl Neg for W { type Output = W; #[inline] fn neg(self) -> W { W(mix(21, self.0
 impl Not for V { type Output = V; #[inline] fn not(self) -> V { V(mix(22, self.0, 3)) } }
 impl Not for W { type Output = W; #[inline] fn not(self) -> W { W(mix(23, self.0, 4)) } }
 
-impl core::iter::Sum for V { fn sum<I: Iterator<Item = V>>(i: I) -> V { i.fold(V(0x1111), |a, b| a + b) } }
-impl core::iter::Sum for W { fn sum<I: Iterator<Item = W>>(i: I) -> W { i.fold(W(0x2222), |a, b| a + b) } }
-impl core::iter::Product for V { fn product<I: Iterator<Item = V>>(i: I) -> V { i.fold(V(0x3333), |a, b| a * b) } }
-impl core::iter::Product for W { fn product<I: Iterator<Item = W>>(i: I) -> W { i.fold(W(0x4444), |a, b| a * b) } }
+// The field types' own Sum / Product give the empty sum / product for an empty iterator and a *decoy* otherwise: the property defines the derived
+// Sum / Product as the fold with the struct's Add / Mul from the field-wise empty value, so the fields' Sum / Product may only ever be asked for
+// the empty case (a derive that delegates to them for a non-empty iterator is visible - seed C10-newtype-sum-delegates-to-field-sum).
+impl core::iter::Sum for V { fn sum<I: Iterator<Item = V>>(mut i: I) -> V { if i.next().is_none() { V(0x1111) } else { V(0xdead_0001) } } }
+impl core::iter::Sum for W { fn sum<I: Iterator<Item = W>>(mut i: I) -> W { if i.next().is_none() { W(0x2222) } else { W(0xdead_0002) } } }
+impl core::iter::Product for V { fn product<I: Iterator<Item = V>>(mut i: I) -> V { if i.next().is_none() { V(0x3333) } else { V(0xdead_0003) } } }
+impl core::iter::Product for W { fn product<I: Iterator<Item = W>>(mut i: I) -> W { if i.next().is_none() { W(0x4444) } else { W(0xdead_0004) } } }
 """
 
 FIELD_TYPES = {1: ["V"], 2: ["V", "W"], 3: ["V", "W", "V"]}
